@@ -297,7 +297,7 @@ func c06Replay(c *lib.Ctx, raw json.RawMessage) []lib.Violation {
 func init() {
 	lib.Register(&lib.Check{
 		ID: "C06", Level: "model_checking",
-		Rule: "every query of <=4 (quick) / <=5 (thorough) words over a 17-word NLP-aware alphabet (actions, targets, synonym carriers, stop word, context words ip/manage/windows, the 'without opening' phrase, upper case, punctuation) + 6..13-word families (13 rotations of distinct known words, a 3-word cycle, unknown words with one known word at every position) + 15 specials; each analysed twice (ProcessQuery / GetEnhancedKeywords structure) and searched on 12 databases x all-platforms on/off with NLP off and on at Limit>=N: NLP-off result set must be a subset of NLP-on (<=10 content words), entries matching one of the first four content words must be present (longer). evaluations = searches + analyses; non-trivial = search pairs with a non-empty NLP-off answer",
+		Rule:      "every query of <=4 (quick) / <=5 (thorough) words over a 17-word NLP-aware alphabet (actions, targets, synonym carriers, stop word, context words ip/manage/windows, the 'without opening' phrase, upper case, punctuation) + 6..13-word families (13 rotations of distinct known words, a 3-word cycle, unknown words with one known word at every position) + 15 specials; each analysed twice (ProcessQuery / GetEnhancedKeywords structure) and searched on 12 databases x all-platforms on/off with NLP off and on at Limit>=N: NLP-off result set must be a subset of NLP-on (<=10 content words), entries matching one of the first four content words must be present (longer). evaluations = searches + analyses; non-trivial = search pairs with a non-empty NLP-off answer",
 		Assume:    []string{"host pinned to linux, map order pinned", "first four content words = the first four tokens of the query after stop-word removal"},
 		QuickSecs: 150, ThorSecs: 1200,
 		Run: c06Run, Replay: c06Replay,
